@@ -151,7 +151,9 @@ claim(
     "C19",
     "K-inst on the catalogue's guard-free single-alternative instances: with diagnostics enabled, the set of argument positions recorded "
     "in the MismatchReporter equals { i | argument i does not match sub-pattern i } for every argument tuple, each once, with kind "
-    "Pattern/Eq/Ne as written.  All message TEXT (Trait::method(args), Debug renderings, file:line, Display of MockError) is string "
+    "Pattern/Eq/Ne as written; the runtime collection functions (MismatchReporter::{pat_fail, eq_fail, ne_fail}, "
+    "MismatchesBuilder::collect_from_reporter) record / collect each report with its argument position and kind, losing, duplicating and "
+    "reordering nothing [V, all inputs].  All message TEXT (Trait::method(args), Debug renderings, file:line, Display of MockError) is string "
     "formatting and is not covered.",
     trusted=["catalogue of programs", "message text is outside (str reasoning / core::fmt)"],
 )
